@@ -183,7 +183,7 @@ theorem to_method_value_at (κ : Kind) (t : Target) (m : Mapping) (deg : Option 
     (hs : Fam t.isSpin s) (h : toMethod κ t m deg M = .ok R)
     (hx : ∀ kv ∈ M, ∀ l ∈ kv.1, pull κ.isSpin t.isSpin m s l = x l) :
     eval s R = eval x M := by
-  rw [eval_toMethod hs h]; exact eval_congr hx
+  rw [eval_toMethod hs h]; exact eval_congr_keys hx
 
 /-! ## T4.6 — `convert_solution` -/
 
@@ -237,7 +237,7 @@ theorem convert_solution_value (κ : Kind) (m rev : Mapping) (n : Nat) (M E : Po
     (hfam : Fam κ.isSpin (ownSol κ.isSpin (isSolutionSpin (s.map Prod.snd) flag) s isDict)) :
     eval a.fn M = eval (ownSol κ.isSpin (isSolutionSpin (s.map Prod.snd) flag) s isDict) E := by
   rw [to_enumerated_value κ m M E _ hfam hE]
-  apply eval_congr
+  apply eval_congr_keys
   intro kv hkv l hl
   obtain ⟨hlt, hrev⟩ := hinv kv hkv l hl
   obtain ⟨v, hv, ha⟩ := convertSolution_lookup hc hlt hrev (fun j hj e => hinj j _ l hj hlt e hrev)
